@@ -214,12 +214,29 @@ class C06(Prop):
 
     def gen_case(self, rng, k, tier):
         cfg = counters_cfg(rng, tier)
-        cfg.zero_len_same_start_ok = False
+        cfg.zero_len_same_start_ok = (k % 4 == 1)      # a zero-length activity may be followed, at the same instant, by the next activity of its stream
         cfg.p_sync = 0.0
         cfg.p_event_sync = 0.0
         if rng.random() < 0.3:      # ranks that use different sets of streams
             cfg.n_ranks = max(cfg.n_ranks, 2)
         case = case_from_cfg(rng, cfg)
+        if cfg.zero_len_same_start_ok:
+            # two activities of one stream may share a start only if exactly ONE of them has zero length (the order of two zero-length
+            # activities at one instant is not defined): draw again otherwise, at most 30 times
+            def twins(c):
+                seen: Dict[Any, List[int]] = {}
+                for r in c["ranks"]:
+                    for e in r["events"]:
+                        if e.get("pid") == 0 and e.get("ph") == "X" and e.get("cat") in ("kernel", "gpu_memcpy", "gpu_memset"):
+                            seen.setdefault((r["rank"], e["args"]["stream"], e["ts"]), []).append(e["dur"])
+                return any(len(v) > 2 or (len(v) == 2 and (v[0] == 0) == (v[1] == 0)) for v in seen.values())
+            for _ in range(30):
+                if not twins(case):
+                    break
+                case = case_from_cfg(rng, cfg)
+            else:
+                cfg.zero_len_same_start_ok = False
+                case = case_from_cfg(rng, cfg)
         n = len(case["ranks"])
         if rng.random() < 0.3 and n >= 2:
             for r in case["ranks"][1:]:          # move the later ranks' activities of stream 7 to a stream the first rank does not use
